@@ -15,7 +15,7 @@ from .. import harness, libgen, refnames, tokens
 PROP = "C13"
 MODNAME = __name__
 
-WORDS = ["AA", "bb", "{cc}", "{\\'E}x", "{\\'e}x", "\\'Eb", "1b", "b\\"]
+WORDS = ["AA", "bb", "{cc}", "{\\'E}x", "{\\'e}x", "\\'Eb", "1b", "b\\", "\\Ab", "A{}b"]
 SEPS = [" ", "~", ", ", ",", ", ~"]
 SEPS_SMALL = [" ", ", "]
 
@@ -175,7 +175,7 @@ def name_strategy():
     pool = ["Knuth", "Donald", "E.", "von", "der", "de", "la", "van", "Beethoven", "Jr", "IV", "{de la}", "{Foo Bar}", "d'Ormesson",
             "Jean-Paul", "{\\'E}mile", "{\\'e}cole", "\\'Emile", "\\'ecole", "{\\ae}sop", "{\\AE}sop", "1st", "2b", "{cc}", "{Cc}", "{}", "{\\relax von}Last",
             "ÉCOLE", "école", "ß", "Ünal", "ünal", "x{\\'E}", "{x}y", "{x}Y", "b\\", "B\\\\", "\\\\", "\\", "~", "-", "'t", "A", "b", "3", "{\\'{E}}x",
-            "{{\\'E}}x", "{a\\b}", "\\{", "\\}", "\\,", "{,}", "{ }", "a{b,c}d", "A{b c}d"]
+            "{{\\'E}}x", "{a\\b}", "\\LaTeX", "\\aa", "\\AA", "Hef{}feron", "{}x", "x{}", "\\{", "\\}", "\\,", "{,}", "{ }", "a{b,c}d", "A{b c}d"]
     word = st.one_of(st.sampled_from(pool), st.sampled_from(WORDS), st.text(alphabet="aAbB1.-'éÉ", min_size=1, max_size=4))
     sep = st.sampled_from([" ", " ", " ", "~", ", ", ",", " , ", "  ", "\t", "\n", ", ~"])
 
